@@ -63,6 +63,17 @@ func runC12(em *vEmitter, r *vRng) {
 			}
 			ms.plant(u, i == 0, pid, 1600000000+int64(i), r.bytes(sl), []byte(pw[u]), tail)
 		}
+		if si%5 == 3 {
+			// what a writer killed long ago may have left in the work area, under names an implementation
+			// might derive from the hash file's name, longer than any record an upgrade writes
+			os.Mkdir(filepath.Join(ms.base, ".tmp"), 0700)
+			stale := strings.Repeat("stale-left-over: 0123456789abcdef0123456789abcdef\n", 12)
+			for _, u := range users {
+				for _, nm := range []string{u + ".user", u + ".admin", u, u + ".tmp"} {
+					os.WriteFile(filepath.Join(ms.base, ".tmp", nm), []byte(stale), 0600)
+				}
+			}
+		}
 		polType, polCond := "", ""
 		if withPolicy {
 			polType, polCond = "zxcvbn", fmt.Sprintf("score >= %d", polMin)
